@@ -98,6 +98,8 @@ def gen_user_theories(rng):
             imports.append('g%d' % j)
         if i > 0 and len(imports) == 1 and rng.chance(0.7):
             imports.append('g%d' % rng.randrange(i))
+        if i > 0 and rng.chance(0.5) and 'g%d' % (i - 1) not in imports:
+            imports.append('g%d' % (i - 1))        # chains: g0 <- g1 <- g2 ...
         if rng.chance(0.2):
             imports.remove('logic_base') if len(imports) > 1 else None
         visible = []
@@ -211,6 +213,33 @@ def gen(rng, tier):
             ops.append({'op': 'interrupt', 'k': rng.randint(1, 25)})
         elif k == 'heal':
             ops.append({'op': 'heal'})
+    # bias some histories to the shape where a cache can go stale unnoticed: load X, modify a file that X reaches
+    # only INDIRECTLY (content or import list), load X again
+    if rng.chance(0.6):
+        imps = {t['name']: [i for i in t['imports'] if i.startswith('g')] for t in cfg['theories']}
+
+        def reach(a):
+            seen, todo = [], list(imps.get(a, []))
+            while todo:
+                x = todo.pop()
+                if x not in seen:
+                    seen.append(x)
+                    todo.extend(imps.get(x, []))
+            return seen
+        cands = []
+        for t in cfg['theories']:
+            ind = [x for x in reach(t['name']) if x not in imps[t['name']]]
+            if ind:
+                cands.append((t['name'], sorted(ind)))
+        if cands:
+            X, ind = rng.pick(cands)
+            pos = rng.randrange(len(ops) + 1)
+            pat = [{'op': 'load', 'user': 'sim', 'name': X, 'limit': None, 'k': 0},
+                   {'op': 'write', 'user': 'sim', 'file': rng.pick(ind),
+                    'mut': rng.pick(['change_type', 'alter_item', 'drop_item', 'rename_const', 'add_import', 'drop_import', 'insert_item']),
+                    'k': rng.randrange(1000), 'seed': rng.randrange(1 << 30)},
+                   {'op': 'load', 'user': 'sim', 'name': X, 'limit': None, 'k': 0}]
+            ops[pos:pos] = pat
     # faults without workload test nothing: end with healed loads
     if faulty:
         ops.append({'op': 'heal'})
